@@ -167,6 +167,19 @@ fn cond_text(c: Cond, truth: bool, elif: bool, hash: bool, salt: usize) -> Strin
     }
 }
 
+/// trailing comments on directive lines: a comment is a comment, whatever it contains and
+/// whether or not a blank separates it from the directive
+fn decorate(line: String, salt: usize) -> String {
+    match salt % 7 {
+        0 | 1 => line,
+        2 => format!("{} ; note: with a colon", line),
+        3 => format!("{};glued", line),
+        4 => format!("{} // fallback: default .endif", line),
+        5 => format!("{}/* block */", line),
+        _ => format!("{}//glued too", line),
+    }
+}
+
 pub struct Rendered {
     pub program: String,
     pub flattened: String,
@@ -226,7 +239,7 @@ impl CondModel {
             let hash = i % 3 == 1;
             match a {
                 Act::If(c, t) => {
-                    program.push_str(&cond_text(*c, *t, false, false, salt + i));
+                    program.push_str(&decorate(cond_text(*c, *t, false, false, salt + i), salt / 7 + i));
                     program.push('\n');
                     if !s.stack.is_empty() {
                         features.insert("nested");
@@ -260,7 +273,7 @@ impl CondModel {
                     if *c == Cond::Unevaluable {
                         features.insert("unevaluated-condition");
                     }
-                    program.push_str(&cond_text(*c, *t, true, hash, salt + i));
+                    program.push_str(&decorate(cond_text(*c, *t, true, hash, salt + i), salt / 7 + i));
                     program.push('\n');
                 }
                 Act::Else => {
@@ -270,9 +283,13 @@ impl CondModel {
                     } else {
                         features.insert("else");
                     }
-                    program.push_str(if hash { "#else\n" } else { ".else\n" });
+                    program.push_str(&decorate(if hash { "#else".to_string() } else { ".else".to_string() }, salt / 7 + i));
+                    program.push('\n');
                 }
-                Act::Endif => program.push_str(if hash { "#endif\n" } else { ".endif\n" }),
+                Act::Endif => {
+                    program.push_str(&decorate(if hash { "#endif".to_string() } else { ".endif".to_string() }, salt / 7 + i));
+                    program.push('\n');
+                }
             }
             s = self.step(&s, a).unwrap();
             let keep = match density {
@@ -391,6 +408,7 @@ pub fn run(tier: Tier) -> i32 {
     rep.assume("well-formed conditional structure only (no .elif/.else after .else, .endif only inside a construct); open constructs are closed at the end of the trace");
     rep.assume("conditions on literals, .equ constants and .define flags; a condition that must not be evaluated may be ill-formed");
     rep.assume("messages are compared by their marker text, not by format or line number");
+    rep.assume("directive lines carry rotating trailing comments (none, with a colon, glued without a blank, //, /* */)");
     rep.assume("every trace is rendered four times: with a payload line after every directive, after every second one (two phases) and with directly adjacent directives");
     let coverage = cov(json!({
         "states": ex.states,
